@@ -608,9 +608,12 @@ TWINS = {"lda_x": "1", "lda_c_vwn": "7", "lda_c_pw": "12", "lda_c_pw_mod": "13",
          "gga_c_pbe_sol": "133", "lda_c_chachiyo": "287", "gga_x_chachiyo": "298", "lda_c_chachiyo_mod": "307", "gga_c_chachiyo": "309"}
 
 
-def libxc_sample(rng, N, Nspin, gga):
+def libxc_sample(rng, N, Nspin, gga, zero_pol=False):
     n = 10 ** rng.uniform(-8, 3, N)
-    if Nspin == 2:
+    if Nspin == 2 and zero_pol:
+        # the WHOLE array unpolarised (n_up == n_dw exactly at every point, as in a closed-shell molecule treated spin-polarised), independent spin gradients
+        n_spin = np.array([n / 2, n / 2])
+    elif Nspin == 2:
         zeta = np.tanh(rng.uniform(-3.5, 3.5, N))  # (-0.998, 0.998), dense near full polarisation
         # every fifth point: strongly but not fully polarised, 1 - |zeta| = 10^-u with u in [3, 9]
         corner = np.arange(N) % 5 == 0
@@ -639,6 +642,14 @@ class AgainstLibxc:
         self.f, self.Nspin = f, Nspin
 
     def deviation(self, seed, N):
+        w, where = self.deviation_one(seed, N, False)
+        if self.Nspin == 2 and w <= self.tol():
+            w2, where2 = self.deviation_one(seed, max(200, N // 10), True)
+            if w2 > w:
+                w, where = w2, dict(where2 or {}, sample="whole array with n_up == n_dw")
+        return w, where
+
+    def deviation_one(self, seed, N, zero_pol):
         import eminus
         from eminus.extras.libxc import pyscf_functional
         from eminus.xc.utils import get_xc
@@ -646,7 +657,7 @@ class AgainstLibxc:
         eminus.config.backend = "numpy"
         rng = np.random.default_rng(seed)
         gga = self.f.startswith("gga")
-        n_spin, dn = libxc_sample(rng, N, self.Nspin, gga)
+        n_spin, dn = libxc_sample(rng, N, self.Nspin, gga, zero_pol)
         slot = ("mock_xc", self.f) if "_c_" in self.f else (self.f, "mock_xc")
         with np.errstate(all="ignore"):
             ref = pyscf_functional(TWINS[self.f], n_spin, self.Nspin, dn, None, None)
